@@ -56,7 +56,16 @@ def gen_world(rng):
         if tn and rr < 0.5:
             ret = rng.choice(tn) if rng.random() < 0.5 else t
         add(sub, first, nparams, ret)
-    return dict(types=types, funcs=funcs)
+    # functions whose first parameter is a type of an included namespace and whose name carries that type's prefix
+    for sub, ft in (('object_describe', 'GObject'), ('cancellable_poke', 'GCancellable'), ('initially_unowned_sink', 'GInitiallyUnowned')):
+        if rng.random() < 0.5:
+            add(sub, ('!' + ft, 1), rng.randint(1, 2), None)
+    # the namespace has a second identifier/symbol prefix
+    for sub in rng.sample(['shutdown', 'rec_touch', 'text_new', 'minor', 'gadget_spin'], rng.randint(1, 3)):
+        if sub not in seen:
+            seen.add(sub)
+            funcs.append(dict(sub=sub, first=None, nparams=0, ret=None, prefix='bar'))
+    return dict(types=types, funcs=funcs, constants=[('FOO_MAJOR', 'MAJOR'), ('BAR_MINOR', 'MINOR')], bar_types=[('BarGadget', 'Gadget')])
 
 
 def build(world, S):
@@ -83,37 +92,50 @@ def build(world, S):
                 dump.append('<boxed name="%s" get-type="%s"/>' % (cname, gt))
         line += 10
     dump.append('</dump>')
+    for cn, _ in world.get('constants', []):
+        syms.append(S.const(cn, base=S.td('gint'), line=line, const_int=3))
+        line += 1
+    for cname, _ in world.get('bar_types', []):
+        syms.append(S.FS(S.CSYMBOL_TYPE_TYPEDEF, cname, base_type=S.FT(S.CTYPE_STRUCT, '_' + cname), line=line))
+        syms.append(S.FS(S.CSYMBOL_TYPE_STRUCT, '_' + cname, base_type=S.FT(S.CTYPE_STRUCT, '_' + cname, child_list=[
+            S.FS(S.CSYMBOL_TYPE_MEMBER, 'x', base_type=S.td('gint'), line=line + 1)]), line=line + 1))
+        line += 5
     for f in world['funcs']:
         ps = []
         if f['first'] is not None:
             tname, depth = f['first']
-            t = S.td(tname if tname == 'gint' else 'Foo' + tname)
+            t = S.td(tname if tname == 'gint' else tname[1:] if tname.startswith('!') else 'Foo' + tname)
             for _ in range(depth):
                 t = S.ptr(t)
             ps.append(S.param('self_', t))
             ps += [S.param('p%d' % i, S.td('gint')) for i in range(f['nparams'] - 1)]
         ret = S.td('gint') if f['ret'] is None else S.ptr(S.td('Foo' + f['ret']))
-        syms.append(S.func('foo_' + f['sub'], ret, ps, line=line))
+        syms.append(S.func(f.get('prefix', 'foo') + '_' + f['sub'], ret, ps, line=line))
         line += 1
     # symbols that must be left out
     syms.append(S.func('_foo_hidden_fn', S.td('gint'), [], line=line + 1))
     syms.append(S.func('g_foreign_fn', S.td('gint'), [], line=line + 2))
-    syms.append(S.func('bar_unrelated', S.td('gint'), [], line=line + 3))
+    syms.append(S.func('baz_unrelated', S.td('gint'), [], line=line + 3))
     return syms, ET.ElementTree(ET.fromstring(''.join(dump)))
+
+
+def sym_of(f):
+    return f.get('prefix', 'foo') + '_' + f['sub']
 
 
 def coq_world(i, world, obs, intro):
     tys = clist(['{| t_name := %s; t_kind := %s; t_prefix := %s; t_parents := %s |}'
-                 % (cstr(n), k, copt(uscore(n) if reg else None, cstr), clist([cstr(p) for p in ps])) for n, k, reg, ps in world['types']])
+                 % (cstr(n), k, copt(uscore(n) if reg else None, cstr), clist([cstr(p) for p in ps])) for n, k, reg, ps in world['types']]
+                + ['{| t_name := %s; t_kind := TRecord; t_prefix := None; t_parents := [] |}' % cstr(l) for _, l in world.get('bar_types', [])])
     fcs = []
     for f in world['funcs']:
         first = 'None'
-        if f['first'] is not None and f['first'][0] != 'gint':
+        if f['first'] is not None and f['first'][0] != 'gint' and not f['first'][0].startswith('!'):
             first = '(Some (%s, %d%%nat))' % (cstr(f['first'][0]), f['first'][1])
         fcs.append('{| f4_func := {| fn_symbol := %s; fn_sub := %s; fn_first := %s; fn_nparams := %d%%nat; fn_ret := %s; '
                    'fn_ann_method := false; fn_ann_constructor := false |}; f4_intro := %s; f4_obs := %s |}'
-                   % (cstr('foo_' + f['sub']), cstr(f['sub']), first, f['nparams'], copt(f['ret'], cstr), cbool(intro.get('foo_' + f['sub'], True)),
-                      clist(['(%s, %s, %s, %s)' % (cstr(a), cstr(b), cstr(c), copt(d, cstr)) for a, b, c, d in obs.get('foo_' + f['sub'], [])])))
+                   % (cstr(sym_of(f)), cstr(f['sub']), first, f['nparams'], copt(f['ret'], cstr), cbool(intro.get(sym_of(f), True)),
+                      clist(['(%s, %s, %s, %s)' % (cstr(a), cstr(b), cstr(c), copt(d, cstr)) for a, b, c, d in obs.get(sym_of(f), [])])))
     return '{| w4_id := %d; w4_types := %s; w4_funcs := %s |}' % (i, tys, clist(fcs))
 
 
@@ -132,7 +154,8 @@ def main(tier, seed):
         w = gen_world(rng)
         syms, dump = build(w, S)
         try:
-            r = S.run(syms, includes=['GLib', 'GObject', 'Gio'], dump=dump, warnings=False)
+            r = S.run(syms, includes=['GLib', 'GObject', 'Gio'], dump=dump, warnings=False, identifier_prefixes=['Foo', 'Bar'],
+                      symbol_prefixes=['foo', 'bar'])
         except (Exception, SystemExit) as e:      # noqa
             ck.failing_input('the scanner fails on a generated namespace: %r' % (e,), dict(world=w))
             continue
@@ -155,11 +178,11 @@ def main(tier, seed):
                     intro[cid] = False
         # ---- clauses judged directly
         case = dict(types=w['types'], functions=w['funcs'])
-        for cid in ('_foo_hidden_fn', 'g_foreign_fn', 'bar_unrelated'):
+        for cid in ('_foo_hidden_fn', 'g_foreign_fn', 'baz_unrelated'):
             if cid in obs:
                 ck.failing_input('a symbol that starts with an underscore or belongs to another namespace is described', dict(case, symbol=cid))
         for f in w['funcs']:
-            cid = 'foo_' + f['sub']
+            cid = sym_of(f)
             occ = obs.get(cid, [])
             if f['sub'].endswith(('_get_type', '_get_gtype')) and f['nparams'] == 0:
                 continue
@@ -170,7 +193,7 @@ def main(tier, seed):
                 ck.failing_input('a C identifier is described more than once (beyond one moved-to copy)', dict(case, symbol=cid), detail=occ)
             for cont, tag, name, moved in occ:
                 if tag == 'method':
-                    if f['first'] is None or f['first'][0] != cont or f['first'][1] > 1:
+                    if f['first'] is None or f['first'][0] != cont or f['first'][1] > 1 or cont not in [t_[0] for t_ in w['types']]:
                         ck.failing_input('a function is a method of a type that is not its first parameter (by value or single pointer)',
                                          dict(case, symbol=cid), detail=occ)
                 if tag == 'constructor':
@@ -178,6 +201,17 @@ def main(tier, seed):
                     if f['ret'] is None or f['ret'] not in anc:
                         ck.failing_input('a function is a constructor of a type it does not return (nor an ancestor of it)',
                                          dict(case, symbol=cid), detail=occ)
+        # constants and types under either prefix of the namespace are described once, by their stripped name
+        for cn, local in w.get('constants', []):
+            els = [el for el in ns.findall(S.CORE + 'constant') if el.get(S.CNS + 'type') == cn]
+            if len(els) != 1 or els[0].get('name') != local:
+                ck.failing_input('a public constant is not described exactly once under its stripped name', dict(case, constant=cn),
+                                 detail=[e.attrib for e in els])
+        for cname, local in w.get('bar_types', []) + [('Foo' + t_[0], t_[0]) for t_ in w['types']]:
+            els = [el for el in ns if el.get(S.CNS + 'type') == cname or el.get(S.GLIB + 'type-name') == cname]
+            if len(els) != 1 or els[0].get('name') != local:
+                ck.failing_input('a public type is not described exactly once under its stripped name', dict(case, type=cname),
+                                 detail=[e.attrib for e in els])
         ck.count_case(dict(types=[t[0] for t in w['types']], functions=[f['sub'] for f in w['funcs']]), nontrivial=len(w['funcs']) > 3,
                       kind='types:%d' % min(len(w['types']), 8))
         items.append(coq_world(len(worlds), w, obs, intro))
@@ -200,14 +234,15 @@ def main(tier, seed):
         if bad:
             w, obs = worlds[bad[0][0]]
             fs = [w['funcs'][j] for j in bad[0][1:]]
+            obs = {k_: v_ for k_, v_ in obs.items()}
             if os.environ.get('VERIF_DEBUG'):
                 for b in bad[:12]:
                     ww, oo = worlds[b[0]]
                     for j in b[1:]:
                         sys.stderr.write('--- types=%s\n    func=%s\n    obs=%s\n' % ([(t[0], t[1], t[2]) for t in ww['types']], ww['funcs'][j],
-                                                                                     oo.get('foo_' + ww['funcs'][j]['sub'])))
+                                                                                     oo.get(sym_of(ww['funcs'][j]))))
             ck.tie_broken('correspondence', 'placement of functions differs from Model.C04 on %d worlds' % len(bad),
-                          dict(types=w['types'], functions=fs, observed={('foo_' + f['sub']): obs.get('foo_' + f['sub']) for f in fs}))
+                          dict(types=w['types'], functions=fs, observed={sym_of(f): obs.get(sym_of(f)) for f in fs}))
     return ck.finish(rule='namespaces over a pool of 12 types (classes with ancestors, registered and plain structures, an interface, an '
                           'enumeration; names that are prefixes of each other and CamelCase runs) and 6-16 functions whose symbols combine '
                           'type prefixes with constructor-like, method-like and unrelated suffixes, whose first parameter is the prefix type, '
